@@ -86,6 +86,7 @@ type recorder struct {
 	shutdown   bool
 	stopLogged bool
 	dialUDP    bool
+	acceptGate chan struct{} // when set, the loop thread waits here before accept(2)
 	client     bool
 }
 
@@ -278,6 +279,14 @@ func (r *recorder) Before(c *vunix.Call) {
 		r.add("obs", tr.L("sys", "epctl", op, tr.I(c.Arg2), tr.B(c.Events&unix.EPOLLOUT != 0), tr.B(c.Events&unix.EPOLLET != 0)))
 		r.maybeInject(c, "epctl-"+op)
 	case "accept4", "accept":
+		if g := r.acceptGate; g != nil {
+			r.mu.Unlock()
+			select {
+			case <-g:
+			case <-time.After(2 * time.Second):
+			}
+			r.mu.Lock()
+		}
 		r.add("obs", tr.L("sys", "accept", tr.I(c.Fd)))
 		r.maybeInject(c, "accept")
 	case "recvfrom":
